@@ -401,6 +401,16 @@ func (env *LEnv) load(ctx context.Context, exprs []*LVal) *LVal {
 		env.Runtime.Package = currPkg
 	}()
 
+	// Evaluating the loaded forms moves this environment's location into
+	// the loaded source.  A nested load runs on the root environment, which
+	// is also where the top-level forms of the LOADING file are evaluated:
+	// left where the loaded source ended, the location made a later call
+	// written in the same form -- (map 'list load-file '("sub/b.lisp"
+	// "c.lisp")) -- look as if it were made from sub/b.lisp, and its
+	// relative location resolved against the wrong directory.
+	loc := env.loc
+	defer func() { env.loc = loc }()
+
 	ret := Nil()
 	for _, expr := range exprs {
 		ret = env.eval(ctx, expr)
